@@ -136,7 +136,8 @@ def run(ck):
         "case = one history (#case-separated) of 1-60 talloc calls over <= 12 user objects produced by the "
         "model-guided generator (live arguments, references/steals only where the holder graph stays acyclic; "
         "op mix biased to reference x reparent x realloc x refusing destructor; talloc_move with the caller's variable "
-        "read back after the call; sizes from {0,1,7,8,9,16,24,100,"
+        "read back after the call; talloc_autofree_context() asked for, populated, freed, asked for again, "
+        "process exit in a forked child with the context alive / freed; sizes from {0,1,7,8,9,16,24,100,"
         "4095,4096,TALLOC_MAXLEN-1,TALLOC_MAXLEN,TALLOC_MAXLEN+1,..}; default cx and talloc_from_cx roots; with and "
         "without null tracking; injected allocator failures), plus ALL sequences of N ops from a 16-op-per-object "
         "alphabet after each of 8 allocation shapes of 3 objects (N=2 quick, N=3 thorough); a quarter of the random "
